@@ -310,7 +310,24 @@ def r12(ctx: Ctx):
           if not any(is_self_attr(y) and y.attr == 'enqueue_done' for y in ast.walk(x.test)):
             failure_only = x.test
     what = f'IteratorQueue.{lname}: a queue that is already over (failed, stopped or exhausted) stops the newly linked queue at once'
-    if ok and failure_only is not None:
+    # register-then-check: the argument is in the link list BEFORE the "already over?" test is made. The other way round
+    # a queue that ends between the test and the registration has run its end-of-stream path with nothing linked AND the
+    # test has said "not over": nobody stops the argument
+    g_l = cfgm.cfg_of(m.node)
+    is_reg = lambda nd: any(isinstance(c, ast.Call) and isinstance(c.func, ast.Attribute) and c.func.attr in ('append', 'add')
+                            and is_self_attr(c.func.value) and c.args and isinstance(c.args[0], ast.Name) and c.args[0].id in ps
+                            for c in cfgm.node_exprs(nd)) or (
+        isinstance(nd.ast, ast.Assign) and any(is_self_attr(t) for t in nd.ast.targets) and isinstance(nd.ast.value, ast.Name)
+        and nd.ast.value.id in ps)
+    tests = [nd for nd in g_l.nodes if nd.kind == 'cond' and any(
+        is_self_attr(y) and y.attr in ('_exception', 'exception', 'enqueue_done', '_stop_requested') for y in ast.walk(nd.ast))]
+    late = [t_ for t_ in tests if g_l.dominates(is_reg, t_, cfgm.only_normal) is not None]
+    if ok and late:
+      ctx.fail(rule, m, what,
+               f'{lname}() tests `{unparse(late[0].ast)}` BEFORE it has registered its argument: when the queue ends between that test'
+               ' and the registration, the end-of-stream path has already run with nothing linked and the test has answered'
+               ' "not over" — the newly linked queue is never stopped and its feeder threads stay blocked in put()', node=late[0].ast)
+    elif ok and failure_only is not None:
       ctx.fail(rule, m, what,
                f'{lname}() stops its argument only under `{unparse(failure_only)}`: the stacking function makes the link AFTER it'
                ' launched the workers, so workers that finish NORMALLY before the link exists (a worker function that reads'
@@ -806,6 +823,9 @@ from mlmverif.selfcheck import B, OK  # noqa: E402
 
 _F = 'utils/iter_utils.py'
 VARIANTS = [
+    B('link-tests-before-it-registers', 'utils/iter_utils.py',
+      "    self._stopped_with.append(other)\n    if self.enqueue_done:\n      # Already over, e.g., failed on the very first element.\n      other.maybe_stop()\n",
+      "    if self.enqueue_done:\n      # Already over, e.g., failed on the very first element.\n      other.maybe_stop()\n      return\n    self._stopped_with.append(other)\n", 'R-C13-12'),
     B('pmap-maps-with-a-for-loop-generator', 'utils/iter_utils.py',
       "  return piter_fn(\n      lambda it: map(fn, it),", "  def mapped(it):\n    for x in it:\n      yield fn(x)\n\n  return piter_fn(\n      mapped,", 'R-C13-15'),
     B('pmap-maps-with-a-generator-expression', 'utils/iter_utils.py',
